@@ -105,7 +105,11 @@ func TestVerifC08Child(t *testing.T) {
 		t.Skip("only run as a child of TestVerifC08")
 	}
 	root := os.Getenv("VERIF_C08_ROOT")
-	script := os.Getenv("VERIF_C08_SCRIPT")
+	sb, err := os.ReadFile(os.Getenv("VERIF_C08_SCRIPT_FILE"))
+	if err != nil {
+		t.Fatal(err)
+	}
+	script := string(sb)
 	var st *Storer
 	var aofW *AofWriter
 	var rdbW *RdbWriter
@@ -224,9 +228,10 @@ func TestVerifC08Child(t *testing.T) {
 // ---------------------------------------------------------------- file-level operations
 
 type c08Op struct {
-	kind string // create | append | pwrite | rename | remove
+	kind string // create | append | pwrite | truncate | rename | remove
 	name string
 	to   string
+	off  int64 // pwrite: file offset; truncate: new length
 	data []byte
 }
 
@@ -236,6 +241,13 @@ func (o c08Op) String() string {
 		return o.kind + " " + o.name
 	case "rename":
 		return "rename " + o.name + " " + o.to
+	case "truncate":
+		return fmt.Sprintf("truncate %s %d", o.name, o.off)
+	case "pwrite":
+		if o.off != 0 { // the model knows header rewrites (offset 0) only: anything else is a DIFF of the tie
+			return fmt.Sprintf("pwriteat %s %d %s", o.name, o.off, vfutil.Hex(o.data))
+		}
+		return "pwrite " + o.name + " " + vfutil.Hex(o.data)
 	default:
 		return o.kind + " " + o.name + " " + vfutil.Hex(o.data)
 	}
@@ -261,11 +273,20 @@ func (im c08Image) apply(o c08Op) {
 		}
 	case "pwrite":
 		if c, ok := im[o.name]; ok {
-			n := append([]byte(nil), o.data...)
-			if len(c) > len(o.data) {
-				n = append(n, c[len(o.data):]...)
+			n := append([]byte(nil), c...)
+			for int64(len(n)) < o.off+int64(len(o.data)) {
+				n = append(n, 0)
 			}
+			copy(n[o.off:], o.data)
 			im[o.name] = n
+		}
+	case "truncate":
+		if c, ok := im[o.name]; ok {
+			n := append([]byte(nil), c...)
+			for int64(len(n)) < o.off {
+				n = append(n, 0)
+			}
+			im[o.name] = n[:o.off]
 		}
 	case "rename":
 		if c, ok := im[o.name]; ok {
@@ -346,8 +367,9 @@ func c08ParseTrace(path, dir string) ([]c08Op, error) {
 	sc.Buffer(make([]byte, 1<<20), 1<<26)
 	pending := map[string]string{}
 	type fdState struct {
-		name string
-		off  int64
+		name   string
+		off    int64
+		append bool
 	}
 	fds := map[int]*fdState{}
 	sizes := map[string]int64{}
@@ -357,6 +379,17 @@ func c08ParseTrace(path, dir string) ([]c08Op, error) {
 			return filepath.Base(p), true
 		}
 		return "", false
+	}
+	// whatever write syscall the code uses: the bytes land at an offset of a file
+	writeAt := func(st *fdState, off int64, data []byte) {
+		if off == sizes[st.name] {
+			ops = append(ops, c08Op{kind: "append", name: st.name, data: data})
+		} else {
+			ops = append(ops, c08Op{kind: "pwrite", name: st.name, off: off, data: data})
+		}
+		if end := off + int64(len(data)); end > sizes[st.name] {
+			sizes[st.name] = end
+		}
 	}
 	for sc.Scan() {
 		m := c08LineRe.FindStringSubmatch(sc.Text())
@@ -386,6 +419,42 @@ func c08ParseTrace(path, dir string) ([]c08Op, error) {
 		if !ok {
 			continue
 		}
+		retN := int64(-1)
+		if rm := c08RetNRe.FindStringSubmatch(rest); rm != nil {
+			retN, _ = strconv.ParseInt(rm[1], 10, 64)
+		}
+		// the last plain argument (offset of pwrite64/pwritev, length of ftruncate)
+		lastArg := func() int64 {
+			q := strings.LastIndexByte(rest, ')')
+			if q < 0 {
+				return -1
+			}
+			parts := strings.Split(rest[p+1:q], ",")
+			v, err := strconv.ParseInt(strings.TrimSpace(parts[len(parts)-1]), 10, 64)
+			if err != nil {
+				return -1
+			}
+			return v
+		}
+		fdOf := func() *fdState {
+			fm := c08FdRe.FindStringSubmatch(args)
+			if fm == nil {
+				return nil
+			}
+			fd, _ := strconv.Atoi(fm[1])
+			return fds[fd]
+		}
+		payload := func() []byte { // all buffers of the call, cut to what was written
+			fm := c08FdRe.FindStringSubmatch(args)
+			var data []byte
+			for _, b := range c08Strings(args[len(fm[0]):]) {
+				data = append(data, b...)
+			}
+			if retN >= 0 && retN < int64(len(data)) {
+				data = data[:retN] // short write
+			}
+			return data
+		}
 		switch name {
 		case "openat":
 			rm := c08RetFdRe.FindStringSubmatch(rest)
@@ -398,53 +467,57 @@ func c08ParseTrace(path, dir string) ([]c08Op, error) {
 				delete(fds, fd)
 				continue
 			}
-			fds[fd] = &fdState{name: base}
-			if strings.Contains(args, "O_CREAT") && strings.Contains(args, "O_TRUNC") {
+			fds[fd] = &fdState{name: base, append: strings.Contains(args, "O_APPEND")}
+			_, exists := sizes[base]
+			if strings.Contains(args, "O_TRUNC") && (exists || strings.Contains(args, "O_CREAT")) ||
+				strings.Contains(args, "O_CREAT") && !exists {
 				ops = append(ops, c08Op{kind: "create", name: base})
 				sizes[base] = 0
 			}
-		case "write":
-			fm := c08FdRe.FindStringSubmatch(args)
-			if fm == nil {
-				continue
-			}
-			fd, _ := strconv.Atoi(fm[1])
-			st := fds[fd]
+		case "write", "writev":
+			st := fdOf()
 			if st == nil {
 				continue
 			}
-			strs := c08Strings(args[len(fm[0]):])
-			if len(strs) == 0 {
+			data := payload()
+			if len(data) == 0 {
 				continue
 			}
-			data := strs[0]
-			if rm := c08RetNRe.FindStringSubmatch(rest); rm != nil {
-				if n, _ := strconv.Atoi(rm[1]); n < len(data) {
-					data = data[:n] // short write
-				}
+			if st.append {
+				st.off = sizes[st.name]
 			}
-			if st.off == sizes[st.name] {
-				ops = append(ops, c08Op{kind: "append", name: st.name, data: data})
-				sizes[st.name] += int64(len(data))
-			} else {
-				if st.off != 0 {
-					return nil, fmt.Errorf("write at offset %d of %s (size %d): not a header rewrite", st.off, st.name, sizes[st.name])
-				}
-				ops = append(ops, c08Op{kind: "pwrite", name: st.name, data: data})
-			}
+			writeAt(st, st.off, data)
 			st.off += int64(len(data))
-		case "lseek":
-			fm := c08FdRe.FindStringSubmatch(args)
-			if fm == nil {
+		case "pwrite64", "pwritev", "pwritev2":
+			st := fdOf()
+			if st == nil {
 				continue
 			}
-			fd, _ := strconv.Atoi(fm[1])
-			if st := fds[fd]; st != nil {
-				parts := strings.Split(args[len(fm[0]):], ",")
-				if len(parts) >= 3 && strings.Contains(parts[2], "SEEK_SET") {
-					v, _ := strconv.ParseInt(strings.TrimSpace(parts[1]), 10, 64)
-					st.off = v
+			data := payload()
+			off := lastArg()
+			if name == "pwritev2" { // (fd, iov, cnt, offset, flags)
+				q := strings.LastIndexByte(rest, ')')
+				parts := strings.Split(rest[p+1:q], ",")
+				if len(parts) >= 2 {
+					off, _ = strconv.ParseInt(strings.TrimSpace(parts[len(parts)-2]), 10, 64)
 				}
+			}
+			if len(data) == 0 || off < 0 {
+				continue
+			}
+			writeAt(st, off, data)
+		case "ftruncate":
+			st := fdOf()
+			if st == nil {
+				continue
+			}
+			if n := lastArg(); n >= 0 && n != sizes[st.name] {
+				ops = append(ops, c08Op{kind: "truncate", name: st.name, off: n})
+				sizes[st.name] = n
+			}
+		case "lseek":
+			if st := fdOf(); st != nil && retN >= 0 {
+				st.off = retN // the resulting position, whatever the whence
 			}
 		case "close":
 			fm := c08FdRe.FindStringSubmatch(args)
@@ -836,69 +909,106 @@ func TestVerifC08(t *testing.T) {
 	s := vfutil.NewSession("C08")
 	defer s.Close()
 	if _, err := exec.LookPath("strace"); err != nil {
-		s.Violate("no-strace", "strace is not available: the syscall-level tie cannot run", nil)
-		return
+		t.Fatalf("C08 harness infrastructure (no statement about the cache): strace is not available, the syscall-level tie cannot run")
 	}
 	p := &c08Parent{s: s, r: vfutil.NewRand(vfutil.Seed() + 8), tmp: t.TempDir()}
 	cur := ""
 	wd := vfWatchdog(s, time.Duration(vfutil.Scale(150, 1500))*time.Second, func() string { return cur })
 	defer wd.Stop()
 
-	runCase := func(script string, salt uint64, src string) {
-		cur = script
-		p.salt = salt
+	// runChild runs the script with the real writers under strace and returns the
+	// file operations of the trace. Everything that can go wrong HERE is a failure
+	// of the harness' infrastructure (strace, the child process, the trace parser),
+	// never a behaviour of the cache: it is retried and then reported as a broken
+	// tie (test failure), not as a violation with a failing input.
+	runChild := func(script string) (ops []c08Op, viol string, err error) {
 		root := filepath.Join(p.tmp, fmt.Sprintf("w%d", p.n))
 		p.n++
 		os.MkdirAll(root, 0o777)
+		defer os.RemoveAll(root)
 		trace := filepath.Join(root, "trace.txt")
+		scriptFile := filepath.Join(root, "script.txt") // not in the environment: one env string is limited to 128 KiB
+		if err := os.WriteFile(scriptFile, []byte(script), 0o644); err != nil {
+			return nil, "", err
+		}
 		cmd := exec.Command("strace", "-f", "-y", "-s", "1000000", "-xx",
-			"-e", "trace=openat,write,lseek,close,rename,renameat,renameat2,unlink,unlinkat",
+			"-e", "trace=openat,write,writev,pwrite64,pwritev,pwritev2,ftruncate,lseek,close,rename,renameat,renameat2,unlink,unlinkat",
 			"-o", trace, os.Args[0], "-test.run", "^TestVerifC08Child$")
-		cmd.Env = append(os.Environ(), "VERIF_C08_CHILD=1", "VERIF_C08_ROOT="+root, "VERIF_C08_SCRIPT="+script,
+		cmd.Env = append(os.Environ(), "VERIF_C08_CHILD=1", "VERIF_C08_ROOT="+root, "VERIF_C08_SCRIPT_FILE="+scriptFile,
 			"VERIF_OUT="+filepath.Join(root, "out"))
 		if out, err := cmd.CombinedOutput(); err != nil {
-			s.Violate("child-failed", fmt.Sprintf("%v: %s", err, out), map[string]interface{}{"script": script})
-			return
+			return nil, "", fmt.Errorf("child failed: %v: %s", err, out)
 		}
 		if b, err := os.ReadFile(filepath.Join(root, "violation.txt")); err == nil {
-			kv := strings.SplitN(string(b), "|", 2)
-			s.Violate(kv[0], kv[1], map[string]interface{}{"script": script})
+			viol = string(b)
 		}
-		ops, err := c08ParseTrace(trace, filepath.Join(root, c08RunId))
+		dir := filepath.Join(root, c08RunId)
+		ops, err = c08ParseTrace(trace, dir)
 		if err != nil {
-			s.Violate("trace-unparsed", err.Error(), map[string]interface{}{"script": script})
-			return
+			return nil, "", fmt.Errorf("trace not parsed: %v", err)
 		}
-		// sanity of the trace itself: every byte the script feeds must show up as
-		// written (strace occasionally splits a line; a lost line must not pass as
-		// a behaviour of the code)
-		fed, seen := 0, 0
-		for _, op := range strings.Split(script, ";") {
-			f := strings.Fields(op)
-			if len(f) == 2 && (f[0] == "drdba" || f[0] == "daofa") {
-				fed += len(vfutil.UnHex(f[1]))
-			}
-			if len(f) == 3 && f[0] == "daofx" {
-				k, _ := strconv.Atoi(f[1])
-				fed += k
-			}
-		}
+		// sanity of trace and parser: the operations of the trace, applied to an empty
+		// directory, must give exactly the directory the child left behind — a write
+		// that strace did not show or the parser did not understand (a lost line, a
+		// syscall outside the filter) must not pass as a behaviour of the code
+		im := c08Image{}
 		for _, o := range ops {
-			if o.kind == "append" && !(len(o.data) == headerSize && strings.HasSuffix(o.name, ".aof") && o.data[0] == 1 && string(o.data[1:]) == string(make([]byte, 15))) {
-				seen += len(o.data)
-			}
+			im.apply(o)
 		}
-		if fed != seen {
+		ents, _ := os.ReadDir(dir)
+		real := c08Image{}
+		for _, e := range ents {
+			b, _ := os.ReadFile(filepath.Join(dir, e.Name()))
+			real[e.Name()] = b
+		}
+		if im.String() != real.String() {
 			if keep := os.Getenv("VERIF_C08_KEEP"); keep != "" {
 				b, _ := os.ReadFile(trace)
 				os.WriteFile(keep, b, 0o644)
 			}
-			s.Count("trace_incomplete")
-			s.Violate("trace-incomplete", fmt.Sprintf("the script feeds %d bytes, the parsed trace shows %d", fed, seen), map[string]interface{}{"script": script})
-			os.RemoveAll(root)
+			var bad []string
+			for n := range real {
+				if string(im[n]) != string(real[n]) {
+					bad = append(bad, fmt.Sprintf("%s (trace %d bytes, directory %d bytes)", n, len(im[n]), len(real[n])))
+				}
+			}
+			for n := range im {
+				if _, ok := real[n]; !ok {
+					bad = append(bad, n+" (in the trace only)")
+				}
+			}
+			sort.Strings(bad)
+			return nil, "", fmt.Errorf("the parsed trace does not reproduce the directory the child left: %s", strings.Join(bad, ", "))
+		}
+		return ops, viol, nil
+	}
+
+	runCase := func(script string, salt uint64, src string) {
+		cur = script
+		p.salt = salt
+		var ops []c08Op
+		var viol string
+		var err error
+		for attempt := 0; attempt < 3; attempt++ {
+			if ops, viol, err = runChild(script); err == nil {
+				break
+			}
+			s.Count("infra_retries")
+		}
+		if err != nil {
+			s.Count("infra_failures")
+			t.Errorf("C08 harness infrastructure (no statement about the cache): %v", err)
 			return
 		}
-		os.RemoveAll(root)
+		if viol != "" {
+			kv := strings.SplitN(viol, "|", 2)
+			if kv[0] == "fault-not-injected" {
+				s.Count("infra_failures")
+				t.Errorf("C08 harness infrastructure (no statement about the cache): %s", kv[1])
+				return
+			}
+			s.Violate(kv[0], kv[1], map[string]interface{}{"script": script})
+		}
 		// (1) the writers' file operations, op for op
 		lines := make([]string, len(ops))
 		for i, o := range ops {
@@ -974,8 +1084,15 @@ func (p *c08Parent) crashImages(ops []c08Op, script string) {
 				p.reopen(im.clone(), true, "prefix", script)
 			}
 		}
-		// (3) alterations of closed segments of the final image
-		for name, b := range im {
+		// (3) alterations of closed segments of the final image (sorted: the draws from
+		// the seeded generator must not depend on map order)
+		var imNames []string
+		for n := range im {
+			imNames = append(imNames, n)
+		}
+		sort.Strings(imNames)
+		for _, name := range imNames {
+			b := im[name]
 			if !strings.HasSuffix(name, ".aof") || len(b) <= headerSize || b[9] == 0 && b[10] == 0 && b[1] == 0 {
 				continue // not a closed segment
 			}
@@ -1002,7 +1119,8 @@ func (p *c08Parent) crashImages(ops []c08Op, script string) {
 			alter("extended", func(c []byte) []byte { return append(c, 0x5a) })
 		}
 		// (4) alterations of a committed snapshot that carries a checksum footer
-		for name, b := range im {
+		for _, name := range imNames {
+			b := im[name]
 			if !strings.HasSuffix(name, ".rdb") || len(b) <= 8 || !c08FooterOk(b) {
 				continue
 			}
@@ -1103,14 +1221,14 @@ func (p *c08Parent) resume(im c08Image, script string) {
 	}
 	w, err := st.GetAofWritter(nil, off)
 	if err != nil {
-		p.s.Violate("resume-failed", err.Error(), replay)
+		p.s.Count("note_resume_failed") // liveness of the writer is not C08's statement
 		return
 	}
 	right := off
 	for i := 0; i < 6; i++ {
 		n := 1 + p.r.Intn(40)
 		if err := w.write(c08SrcSeg(p.salt, right, n)); err != nil {
-			p.s.Violate("resume-failed", err.Error(), replay)
+			p.s.Count("note_resume_failed")
 			return
 		}
 		right += int64(n)
@@ -1137,8 +1255,12 @@ func (p *c08Parent) resume(im c08Image, script string) {
 	st2.VerifStopCollector()
 	if err := st2.SetRunId(c08RunId); err == nil {
 		check(st2, "second restart")
-		if _, r2 := st2.GetOffsetRange(); r2 != right {
-			p.s.Violate("resume-lost-bytes", fmt.Sprintf("the resumed writer appended up to %d, after the second restart the cache ends at %d", right, r2), replay)
+		// C08 is a safety statement: discarding is allowed, claiming bytes that were
+		// never written is not (retention is only noted)
+		if _, r2 := st2.GetOffsetRange(); r2 > right {
+			p.s.Violate("range-claims-unwritten-bytes", fmt.Sprintf("the resumed writer appended up to %d, after the second restart the cache reports its end at %d", right, r2), replay)
+		} else if r2 != right {
+			p.s.Count("note_resume_discarded_bytes")
 		}
 		// above the run-id directory: the source continues under a NEW replication id
 		// (the directory is renamed), a further process finds it among several ids,
@@ -1146,18 +1268,22 @@ func (p *c08Parent) resume(im c08Image, script string) {
 		if p.r.Chance(1, 2) {
 			newId := c08RunId + "b"
 			if err := st2.SetRunId(newId); err != nil {
-				p.s.Violate("resume-failed", "SetRunId(new id): "+err.Error(), replay)
+				p.s.Count("note_resume_failed")
 			} else {
 				check(st2, "renamed id")
-				if _, r3 := st2.GetOffsetRange(); r3 != right {
-					p.s.Violate("resume-lost-bytes", fmt.Sprintf("after the id change the cache ends at %d, it held bytes up to %d", r3, right), replay)
+				if _, r3 := st2.GetOffsetRange(); r3 > right {
+					p.s.Violate("range-claims-unwritten-bytes", fmt.Sprintf("after the id change the cache reports its end at %d, it held bytes up to %d", r3, right), replay)
+				} else if r3 != right {
+					p.s.Count("note_resume_discarded_bytes")
 				}
 				st3 := NewStorer("vf", root, 0, logSize, config.FlushPolicy{})
 				st3.VerifStopCollector()
 				if off3, err := st3.VerifyRunId([]string{c08RunId, "?", newId}); err == nil {
 					check(st3, "third restart")
-					if off3 != right {
-						p.s.Violate("resume-lost-bytes", fmt.Sprintf("VerifyRunId finds the renamed cache ending at %d, it held bytes up to %d", off3, right), replay)
+					if off3 > right {
+						p.s.Violate("range-claims-unwritten-bytes", fmt.Sprintf("VerifyRunId finds the renamed cache ending at %d, it held bytes up to %d", off3, right), replay)
+					} else if off3 != right {
+						p.s.Count("note_resume_discarded_bytes")
 					}
 				}
 				st3.DelRunId(newId)
@@ -1170,7 +1296,9 @@ func (p *c08Parent) resume(im c08Image, script string) {
 					l4, r4 := st4.GetOffsetRange()
 					rl4, rs4 := st4.GetRdb()
 					if r4 > l4 || rl4 >= 0 {
-						p.s.Violate("deleted-cache-served", fmt.Sprintf("after DelRunId a fresh process opening id %s finds range [%d,%d] snapshot (%d,%d)", id, l4, r4, rl4, rs4), replay)
+						// that a deleted cache is gone is C06/C16's statement, not C08's: noted only
+						_ = rs4
+						p.s.Count("note_deleted_cache_still_served")
 					}
 				}
 				p.s.Count("id_changes")
